@@ -69,3 +69,64 @@ Definition meq (a b : M value) : Prop :=
   | Err _, Err _ => True
   | _, _ => False
   end.
+
+Lemma bind_if {A B} (b : bool) (x y : M A) (k : A -> M B) :
+  bind (if b then x else y) k = if b then bind x k else bind y k.
+Proof. destruct b; reflexivity. Qed.
+
+Lemma if_same {A} (b : bool) (x : A) : (if b then x else x) = x.
+Proof. destruct b; reflexivity. Qed.
+
+(** ** Folds whose accumulator lives in the monad: the Rust pattern
+    [iter.fold(Ok(init), |acc, x| { let a = acc?; ... })] *)
+Section FoldlM.
+  Context {S X : Type}.
+  Variable f : S -> X -> M S.
+
+  Fixpoint foldlM (xs : list X) (a : S) : M S :=
+    match xs with
+    | [] => ret a
+    | x :: r => bind (f a x) (fun a' => foldlM r a')
+    end.
+
+  Lemma fold_left_bind xs (acc : M S) :
+    fold_left (fun acc x => bind acc (fun a => f a x)) xs acc = bind acc (fun a => foldlM xs a).
+  Proof.
+    revert acc. induction xs as [|x r IH]; intros acc; simpl.
+    - symmetry. apply bind_ret_r.
+    - rewrite IH, bind_assoc. reflexivity.
+  Qed.
+End FoldlM.
+
+Section FoldlMI.
+  Context {S X : Type}.
+  Variable f : nat -> S -> X -> M S.
+
+  Fixpoint foldlM_i (xs : list X) (i : nat) (a : S) : M S :=
+    match xs with
+    | [] => ret a
+    | x :: r => bind (f i a x) (fun a' => foldlM_i r (Datatypes.S i) a')
+    end.
+
+  Lemma fold_left_bind_i xs (acc : M S) i :
+    fst (fold_left (fun (st : M S * nat) x => let '(acc, i) := st in (bind acc (fun a => f i a x), Datatypes.S i)) xs (acc, i))
+    = bind acc (fun a => foldlM_i xs i a).
+  Proof.
+    revert acc i. induction xs as [|x r IH]; intros acc i; simpl.
+    - symmetry. apply bind_ret_r.
+    - rewrite IH, bind_assoc. reflexivity.
+  Qed.
+End FoldlMI.
+
+Lemma foldlM_ext {S X} (f g : S -> X -> M S) xs a : (forall s x, f s x = g s x) -> foldlM f xs a = foldlM g xs a.
+Proof. intros H. revert a. induction xs as [|x r IH]; intros a; simpl; [reflexivity|]. rewrite H. apply bind_ext. intros; apply IH. Qed.
+
+(** induction two elements at a time *)
+Lemma list_ind2 {A} (Q : list A -> Prop) :
+  Q [] -> (forall a, Q [a]) -> (forall a b l, Q l -> Q (a :: b :: l)) -> forall l, Q l.
+Proof.
+  intros H0 H1 H2.
+  assert (H : forall l, Q l /\ forall a, Q (a :: l)).
+  { induction l as [|x l [IHa IHb]]; split; auto. }
+  intros l. apply H.
+Qed.
